@@ -448,7 +448,7 @@ def cases(tier, what="forward"):
             add("conv2d", shp, dict(args))
             if bias and n % 3 == 0:
                 add("conv2d", shp, dict(args), pats=["generic", "generic", "zeros"])
-            if fw or n % 4 == 1:
+            if fw or n % 4 in (1, 2):          # 1: with bias, 2: without (see the parity of `bias` above)
                 add("conv2d", shp, dict(args, kernel_size=sp(k, 1)), form="layer")
             if (fw or n % 3 == 0):
                 add("unfold", [(N, Ci, H, W)], dict(args, kernel_size=sp(k, 0)))
